@@ -39,6 +39,8 @@ def case_fn(c):
         fails = oracle.check_dde_field(c["model"], c["solver"], seed=c.get("seed", 0))
     elif kind == "dde_run":
         fails = oracle.check_dde_run(c["model"], c["solver"], T=c.get("T", 2.0), dts=c.get("dts", 0.05))
+    elif kind == "expr_eval":
+        fails = oracle.check_expr_eval(c["tree"], c["values"], style=c.get("style", 0))
     elif kind == "outputs":
         fails = oracle.check_outputs(c["model"], c["request"], c["form"], c["vec"])
     else:
